@@ -531,19 +531,24 @@ def clientRecv (reqId : Int) (pkg : Bytes) : Except String RspPacket :=
         else if p.iRequestId = reqId then .ok p
         else .error "response for another request"
 
+/-- the waiting call got `msg.Resp = p`: the error mapping of `doInvoke` -/
+def respToErr (tr : List Ev) (p : RspPacket) : Option GoErr → List Ev × DoRes × RspPacket
+  | some e => (tr, .err e, p)
+  | none => (tr, .nil, p)
+
+/-- what `AdapterProxy.Recv` did with the package -/
+def deliver (vs : Variants) (tr : List Ev) (resp : RspPacket) :
+    Except String RspPacket → List Ev × DoRes × RspPacket
+  | .error why => (tr, .timeout why, resp)
+  | .ok p => respToErr tr p (clientErr vs.emptyDesc p.iRet p.sResultDesc)
+
 /-- `doInvoke` once the client's receive loop has looked at the bytes the server wrote:
     `AdapterProxy.Recv` delivers the packet to the waiting call, which maps it to an error -/
 def awaitReply (vs : Variants) (reqId : Int) (tr : List Ev) (resp : RspPacket) :
     Recv → List Ev × DoRes × RspPacket
   | .less => (tr, .timeout "client: incomplete package", resp)
   | .error => (tr, .timeout "client: package error, connection closed", resp)
-  | .pkg rpkg =>
-    match clientRecv reqId rpkg with
-    | .error why => (tr, .timeout why, resp)
-    | .ok p =>
-      match clientErr vs.emptyDesc p.iRet p.sResultDesc with
-      | some e => (tr, .err e, p)
-      | none => (tr, .nil, p)
+  | .pkg rpkg => deliver vs tr resp (clientRecv reqId rpkg)
 
 /-- `doInvoke` after `adp.Send`: a one-way call returns nil at once; otherwise the call waits for
     what the server does with the package -/
